@@ -888,6 +888,17 @@ func (r *vRunner) run(c vCase) {
 			}
 			sort.Strings(parts)
 			fmt.Fprintf(r.w, "op dumpfs\nfs %d %s\n", r.idx, strings.Join(parts, " "))
+			// the directories (the model does not speak about them: its line says list=*; oracles that read "directories are
+			// never touched" do)
+			ds := r.sb.dirs()
+			for i, d := range ds {
+				ds[i] = vhex([]byte(d))
+			}
+			dl := "~"
+			if len(ds) > 0 {
+				dl = strings.Join(ds, ",")
+			}
+			fmt.Fprintf(r.w, "dirs %d list=%s\n", r.idx, dl)
 			continue
 		case "readslots":
 			// the REPLAY VIEW of a multi-entry file: what the library's own reader returns for each of the given headers
